@@ -1867,6 +1867,17 @@ where
                             if ann.node == *remote {
                                 continue;
                             }
+                            // Don't send refs announcements of a repository we have, if the
+                            // remote is not allowed to know about it.
+                            if let AnnouncementMessage::Refs(RefsAnnouncement { rid, .. }) =
+                                &ann.message
+                            {
+                                if let Ok(Some(doc)) = self.storage.get(*rid) {
+                                    if !doc.is_visible_to(&(*remote).into()) {
+                                        continue;
+                                    }
+                                }
+                            }
                             // Only send messages if we're a relay, or it's our own messages.
                             if relay || ann.node == local {
                                 self.outbox.write(peer, ann.into());
